@@ -87,6 +87,29 @@ func (v *Vue) evalConditionExpr(ctx VueContext, expr string) (bool, error) {
 	return helpers.IsTruthy(val), nil
 }
 
+// negatedUndefined answers "!path" where the path leads nowhere (!m.x.y without m.x, !l[5] past the
+// end of l): the expression library refuses to look into nothing, but an undefined value is falsy and
+// its negation true - that is what v-if makes of it (see evalConditionExpr), and {{ }}, a bound
+// attribute and the value of a :class key mean the same.
+func (v *Vue) negatedUndefined(ctx VueContext, expr string) (any, bool) {
+	if !strings.HasPrefix(expr, "!") {
+		return nil, false
+	}
+	inner := strings.TrimSpace(expr[1:])
+	if inner == "" {
+		return nil, false
+	}
+	for _, ch := range helpers.MaskQuoted(inner) {
+		if !helpers.IsIdentifierChar(ch, false) && !strings.ContainsRune(".[]'\"", ch) {
+			return nil, false
+		}
+	}
+	if val, ok := ctx.stack.Resolve(inner); ok {
+		return !helpers.IsTruthy(val), true
+	}
+	return true, true
+}
+
 // filterChain parses expr as "value | filter | filter(args)" and reports whether it is one: at
 // least one segment, all of them calls of registered functions.
 func (v *Vue) filterChain(expr string) (pipeExpr, bool) {
